@@ -340,6 +340,12 @@ C07 == [][C07Step]_vars
 C18ZeroStep == (pc = "decide" /\ pc' # "decide" /\ kt.cls = "zero") =>
                   ((Defined(new) /\ new < accCur) => rej' # rej)
 C18Zero == [][C18ZeroStep]_vars
+\* ... and a positive temperature governs the acceptance of the loop it belongs to: where the draw
+\* decides clearly (verdict of u < exp(-d/kT) at the temperature in force), the decision follows it
+C18GovernStep == (pc = "decide" /\ pc' # "decide" /\ kt.cls = "pos" /\ Defined(new) /\ new < accCur) =>
+                    /\ (metro = "yes" => rej' = rej)
+                    /\ (metro = "no" => rej' # rej)
+C18Governs == [][C18GovernStep]_vars
 
 C08Range == \A i \in H(cfg) : InRange(cfg, i, val[i])
 C08Done == pc = "done" => Defined(cur)
